@@ -25,7 +25,7 @@ void reset(size_t cap) { for (auto& x : F) x = File(); CAP = cap; n_epoll_wait =
 int socketpair_(int sv[2]) { int a = alloc(SOCK); int b = alloc(SOCK); if (a < 0 || b < 0) return -1; f(a).peer = b; f(b).peer = a; sv[0] = a; sv[1] = b; return 0; }
 
 bool readable(int fd) { File& s = f(fd); if (s.shut_rd) return true; if (!s.rx.empty()) return true; File& p = f(s.peer); return p.shut_wr || p.closed; }
-bool writable(int fd) { File& s = f(fd); if (s.shut_wr) return true; File& p = f(s.peer); if (p.closed || p.shut_rd) return true; return p.rx.size() < CAP; }
+bool writable(int fd) { File& s = f(fd); File& p = f(s.peer); if (p.closed) return true; return p.rx.size() < CAP; }     // AF_UNIX: send-buffer space only (a shutdown does not change it)
 static bool hup(int fd) { File& s = f(fd); File& p = f(s.peer); return (p.closed || p.shut_wr) ; }
 
 static uint32_t ready_mask(int fd, const Interest& in);
@@ -59,6 +59,7 @@ static ssize_t do_recv(int fd, const iovec* iov, int cnt) {
     EdgeGuard eg;
     File& s = f(fd); if (s.closed) { errno = EBADF; return -1; }
     size_t total = 0; for (int i = 0; i < cnt; i++) total += iov[i].iov_len;
+    if (s.err && s.rx.empty()) { errno = s.err; s.err = 0; return -1; }      // queued data is delivered before the error
     if (s.shut_rd) return 0;
     if (s.rx.empty()) { File& p = f(s.peer); if (p.shut_wr || p.closed) return 0; s.eagain_recv++; errno = EAGAIN; return -1; }
     if (total == 0) return 0;
@@ -96,6 +97,7 @@ static uint32_t ready_mask(int fd, const Interest& in) {
     if (t.kind != SOCK || t.closed) return 0;
     if (readable(fd)) r |= EPOLLIN;
     if (writable(fd)) r |= EPOLLOUT;
+    if (t.err) r |= EPOLLERR | EPOLLIN;
     if (hup(fd)) r |= EPOLLRDHUP;
     File& p = f(t.peer); if ((p.closed || p.shut_wr) && t.shut_wr) r |= EPOLLHUP;
     return r & (in.events | EPOLLERR | EPOLLHUP);
@@ -130,7 +132,8 @@ int eventfd_read(int fd, eventfd_t* v) { return read(fd, v, 8) == 8 ? 0 : -1; }
 int close(int fd) {
     if (!owns(fd)) return (int)PASS(close, fd);
     File& t = f(fd);
-    if (t.kind == SOCK) { t.closed = true; t.shut_rd = t.shut_wr = true; for (auto& e : F) if (e.kind == EPOLL) e.in[fd - FD0] = Interest(); if (f(t.peer).closed) { f(t.peer).kind = FREE; t.kind = FREE; } return 0; }
+    if (t.kind == SOCK) { if (!t.rx.empty() && !f(t.peer).closed) f(t.peer).err = ECONNRESET;      // closing with unread data resets the peer
+        t.closed = true; t.shut_rd = t.shut_wr = true; for (auto& e : F) if (e.kind == EPOLL) e.in[fd - FD0] = Interest(); if (f(t.peer).closed) { f(t.peer).kind = FREE; t.kind = FREE; } return 0; }
     t = File(); return 0;
 }
 int shutdown(int fd, int how) {
